@@ -185,7 +185,12 @@ def dInsertIn (sp : SpSt) (k : Name × Nat) (a b : Time) : SpSt :=
   let later := b + sp.dnlLife + slack
   match dGetAt sp k a, dGetAt sp k b with
   | .absent, .absent => dSet sp k (.present (a + sp.dnlLife) (b + sp.dnlLife))
-  | _, .present lo hi => if b < lo then dSet sp k (.present lo hi) else dSet sp k (.unknown later)
+  | _, .present lo hi =>
+    if b < lo then
+      -- listed throughout [a, b]: a no-op, unless this insertion may have been the earlier of the two
+      if a + sp.dnlLife ≥ hi then dSet sp k (.present lo hi)
+      else dSet sp k (.present (min lo (a + sp.dnlLife)) (max hi (b + sp.dnlLife)))
+    else dSet sp k (.unknown later)
   | _, .unknown u => dSet sp k (.unknown (max u later))
   | _, .absent => dSet sp k (.unknown later)
 
@@ -199,7 +204,11 @@ def advance (sp : SpSt) (dt : Nat) : SpSt :=
   let sp := { sp with now := now }
   /- PIT entries that may have expired by now were finalised: the nonces of their out-records may have
      been put on the dead nonce list (an entry with a certainly live in-record has not expired) -/
-  let sp := sp.outs.foldl (fun sp o =>
+  -- events are applied in chronological order (the state of a key summarises its past)
+  let insOut (o : OutI) : List OutI → List OutI := fun l =>
+    (l.filter fun x => x.expiry ≤ o.expiry) ++ [o] ++ (l.filter fun x => x.expiry > o.expiry)
+  let ordered := sp.outs.foldl (fun acc o => insOut o acc) []
+  let sp := ordered.foldl (fun sp o =>
     if sp.pends.any (fun p => p.key == o.key && p.certain now) then sp
     else match horizonOf sp o.key with
       | some h =>
